@@ -11,7 +11,9 @@ META = {
         "the ack loop, universally quantified ghost index; BufferWriter/SerializablePrimitive inlined from the real source). "
         "UDPMessageDeserializer._parse_message_header on a datagram that is not zero-coded returns exactly those fields back: flags, id, "
         "offset byte, the acks in their original order (reverse of the wire order, count byte last) and raw_body = the bytes between "
-        "header and ack trailer (the trailer is snipped); it rejects datagrams whose trailer would collide with the header. The real "
+        "header and ack trailer (the trailer is snipped); it rejects datagrams whose trailer would collide with the header; on a zero-coded datagram the same, plus: the "
+        "window expanded to find the message name covers the message number and the extra field (two encoded bytes per decoded byte at most) "
+        "or everything that is left. The real "
         "BufferReader, scoped_seek context manager and primitives are inlined. Together: what serialize writes for an unparsed message "
         "is what the header parser reads (composition checked in the bounded tier). UDPMessageDeserializer.parse_message_body: "
         "a body parse that fails (any exception of the template-directed parser) leaves raw_body exactly as it was, so the datagram is "
@@ -33,6 +35,7 @@ def register(reg):
     udp_common.reg_serialize_raw(reg, PID)
     udp_common.reg_parse_header(reg, PID)
     reg.fns["hippolyzer.lib.base.message.udpdeserializer:UDPMessageDeserializer._parse_message_header@plain"].also.append("C01")
+    reg.fns["hippolyzer.lib.base.message.udpdeserializer:UDPMessageDeserializer._parse_message_header@zerocoded"].also.append("C01")
     from contracts import c02b_contracts
     c02b_contracts.register_p2(reg, PID)
     # re-encoding a datagram whose body was parsed goes through the template walk: C01's framing contracts are re-verified here
